@@ -1,505 +1,619 @@
 /-
-C11 — the executable statement the driver evaluates on the implementation's outputs
-(`Drive.C11.checkCycle` / `checkHistory`) is sound and complete for the declarative statement
-of `history_sorted_multiset` (`HistorySpec`: the outputs of every cycle are `specCycle ac ys cy`
-for some non-decreasing permutation `ys` of the values pushed in that cycle).
+C11 — soundness of the executable statement.  `Biogo.Drive.C11.checkHistory` is what the drivers
+of C11, C12 and C13 evaluate on the *implementation's* outputs; here it is proved to imply the
+declarative specification `HistorySpec` (per cycle: the pulls are a non-decreasing permutation
+of the pushes, then io.EOF; Len/Pos; every Push/Finalise/Clear succeeds).  So an `ok`/`diff`
+verdict of a driver means the implementation's outputs satisfy the specification the theorems
+are about, and the checker is no longer part of the trusted base.  The converse
+(`checkHistory_complete`) shows that the checker demands no more than the specification.
 -/
-import Biogo.Drive.C11
+import Biogo.Model.Morass
+import Biogo.Spec.Morass
 import Biogo.Proofs.Morass
 import Biogo.Properties.C11
+import Biogo.Drive.C11
 
 namespace Biogo.Properties.C11_checker
-open Biogo.Morass Biogo.Drive.C11
+open Biogo.Morass Biogo.Drive.C11 Biogo.Properties.C11
 
-theorem firstViolation_none (l : List (Bool × String)) :
-    firstViolation l = none ↔ ∀ x ∈ l, x.1 = false := by
-  induction l with
-  | nil => simp [firstViolation]
-  | cons x xs ih =>
-    obtain ⟨c, m⟩ := x
-    simp only [firstViolation, List.mem_cons, forall_eq_or_imp]
-    cases c <;> simp [ih]
-
-/-- the facts a cycle's outputs satisfy when no clause is violated -/
-structure Clauses (ac : Bool) (cy : Cycle) (outs : List Out) : Prop where
-  c1 : outs.take cy.pushes.length =
-        (List.range cy.pushes.length).map (fun i => (⟨.ok, none, i + 1, i + 1⟩ : Out))
-  c2 : outs[cy.pushes.length]? = some ⟨.ok, none, cy.pushes.length, 0⟩
-  c3 : nondecreasing ((((outs.drop (cy.pushes.length + 1)).take cy.pulls).filterMap (·.val)).map (·.key)) = true
-  c5 : ∀ o ∈ ((outs.drop (cy.pushes.length + 1)).take cy.pulls).take cy.pushes.length,
-        o.res = .ok ∧ o.val.isSome = true
-  c6 : cy.pushes.length ≤ cy.pulls →
-        (((outs.drop (cy.pushes.length + 1)).take cy.pulls).filterMap (·.val)).Perm cy.pushes
-  c7 : ((((outs.drop (cy.pushes.length + 1)).take cy.pulls).filterMap (·.val)).foldl List.erase cy.pushes).length
-        + (((outs.drop (cy.pushes.length + 1)).take cy.pulls).filterMap (·.val)).length = cy.pushes.length
-  c8 : (((outs.drop (cy.pushes.length + 1)).take cy.pulls).filterMap (·.val)).map (·.key) =
-        (sortKeys (cy.pushes.map (·.key))).take
-          (((outs.drop (cy.pushes.length + 1)).take cy.pulls).filterMap (·.val)).length
-  c9 : ∀ o ∈ ((outs.drop (cy.pushes.length + 1)).take cy.pulls).drop cy.pushes.length,
-        o.res = .eof ∧ o.val = none
-  c10 : ∀ j < cy.pulls, ∃ o, ((outs.drop (cy.pushes.length + 1)).take cy.pulls)[j]? = some o ∧
-        (if j < cy.pushes.length then o.len = cy.pushes.length ∧ o.pos = j + 1
-         else o.len = (if ac then 0 else cy.pushes.length) ∧ o.pos = (if ac then 0 else cy.pushes.length))
-  c11 : cy.clear = true → outs[cy.pushes.length + 1 + cy.pulls]? = some ⟨.ok, none, 0, 0⟩
-
-theorem checkCycle_none_iff (ac : Bool) (cy : Cycle) (outs : List Out) :
-    checkCycle ac cy outs = none ↔ Clauses ac cy outs := by
-  unfold checkCycle cycleClauses
-  rw [firstViolation_none]
-  simp only [List.mem_cons, List.not_mem_nil, or_false, forall_eq_or_imp, forall_eq]
-  constructor
-  · rintro ⟨h1, h2, h3, h4, h5, h6, h7, h8, h9, h10, h11⟩
-    refine ⟨by simpa using h1, by simpa using h2, by simpa using h3, ?_, ?_, by simpa using h7,
-      by simpa using h8, ?_, ?_, ?_⟩
-    · intro o ho
-      rw [List.any_eq_false] at h5
-      have := h5 o ho
-      simp only [Bool.or_eq_true, bne_iff_ne, ne_eq, Option.isNone_iff_eq_none, not_or,
-        Decidable.not_not] at this
-      refine ⟨this.1, ?_⟩
-      cases hv : o.val with
-      | none => exact absurd hv this.2
-      | some v => rfl
-    · intro hle
-      have : (decide (cy.pushes.length ≤ cy.pulls)) = true := by simpa using hle
-      rw [this] at h6
-      simp only [Bool.true_and, Bool.not_eq_false'] at h6
-      exact List.isPerm_iff.mp h6
-    · intro o ho
-      rw [List.any_eq_false] at h9
-      have := h9 o ho
-      simp only [Bool.or_eq_true, bne_iff_ne, ne_eq, not_or, Decidable.not_not,
-        Option.isSome_iff_ne_none] at this
-      exact this
-    · intro j hj
-      rw [List.any_eq_false] at h10
-      have := h10 j (List.mem_range.mpr hj)
-      cases ho : ((outs.drop (cy.pushes.length + 1)).take cy.pulls)[j]? with
-      | none => rw [ho] at this; simp at this
-      | some o =>
-        rw [ho] at this
-        refine ⟨o, rfl, ?_⟩
-        by_cases hjn : j < cy.pushes.length
-        · simpa [hjn] using this
-        · simpa [hjn] using this
-    · intro hc
-      rw [hc] at h11
-      simpa using h11
-  · intro h
-    refine ⟨by simpa using h.c1, by simpa using h.c2, by simpa using h.c3, ?_, ?_, ?_,
-      by simpa using h.c7, by simpa using h.c8, ?_, ?_, ?_⟩
-    · rw [List.any_eq_false]
-      intro o ho
-      simp [(h.c5 o ho).1]
-    · rw [List.any_eq_false]
-      intro o ho
-      have := h.c5 o ho
-      cases hv : o.val with
-      | none => rw [hv] at this; simp at this
-      | some v => simp [this.1]
-    · by_cases hle : cy.pushes.length ≤ cy.pulls
-      · simp only [hle, decide_true, Bool.true_and, Bool.not_eq_false']
-        exact List.isPerm_iff.mpr (h.c6 hle)
-      · simp [hle]
-    · rw [List.any_eq_false]
-      intro o ho
-      simp [(h.c9 o ho).1, (h.c9 o ho).2]
-    · rw [List.any_eq_false]
-      intro j hj
-      obtain ⟨o, ho, hlp⟩ := h.c10 j (List.mem_range.mp hj)
-      rw [ho]
-      by_cases hjn : j < cy.pushes.length
-      · simp only [hjn, if_true] at hlp ⊢
-        simp [hlp.1, hlp.2]
-      · simp only [hjn, if_false] at hlp ⊢
-        simp [hlp.1, hlp.2]
-    · cases hc : cy.clear with
-      | false => simp
-      | true => simp [h.c11 hc]
-
-/-! ### list facts -/
+/-! ### small facts about the checker's ingredients -/
 
 theorem nondecreasing_pairwise : ∀ (l : List Int), nondecreasing l = true → l.Pairwise (· ≤ ·)
   | [], _ => List.Pairwise.nil
-  | [_], _ => List.pairwise_singleton _ _
+  | [a], _ => by simp
   | a :: b :: r, h => by
     simp only [nondecreasing, Bool.and_eq_true, decide_eq_true_eq] at h
     have ih := nondecreasing_pairwise (b :: r) h.2
-    rw [List.pairwise_cons] at ih ⊢
-    refine ⟨?_, List.pairwise_cons.mpr ih⟩
+    refine List.pairwise_cons.mpr ⟨?_, ih⟩
     intro x hx
-    rw [List.mem_cons] at hx
-    rcases hx with rfl | hx
+    rcases List.mem_cons.mp hx with rfl | hx
     · exact h.1
-    · exact Int.le_trans h.1 (ih.1 x hx)
+    · have := (List.pairwise_cons.mp ih).1 x hx; omega
 
-theorem pairwise_nondecreasing : ∀ (l : List Int), l.Pairwise (· ≤ ·) → nondecreasing l = true
-  | [], _ => rfl
-  | [_], _ => rfl
-  | a :: b :: r, h => by
-    rw [List.pairwise_cons] at h
-    simp only [nondecreasing, Bool.and_eq_true, decide_eq_true_eq]
-    exact ⟨h.1 b List.mem_cons_self, pairwise_nondecreasing (b :: r) h.2⟩
-
-theorem map_eq_filterMap_some {α β : Type} (f : α → Option β) :
-    ∀ (L : List α), (∀ o ∈ L, (f o).isSome = true) → L.map f = (L.filterMap f).map some
-  | [], _ => rfl
-  | x :: xs, h => by
-    have hx := h x List.mem_cons_self
-    cases hfx : f x with
-    | none => rw [hfx] at hx; cases hx
-    | some v =>
-      rw [List.map_cons, List.filterMap_cons_some hfx, List.map_cons, hfx,
-        map_eq_filterMap_some f xs (fun o ho => h o (List.mem_cons_of_mem _ ho))]
-
-theorem filterMap_none {α β : Type} (f : α → Option β) (L : List α) (h : ∀ o ∈ L, f o = none) :
-    L.filterMap f = [] := by
-  rw [List.filterMap_eq_nil_iff]; exact h
-
-theorem foldl_erase_length (vs : List Elem) : ∀ (xs : List Elem),
-    xs.length ≤ (vs.foldl List.erase xs).length + vs.length := by
+/-- erasing the values of `vs` one by one from `P`: at most one entry goes per value, and when
+    exactly one goes each time, `vs` is a sub-multiset of `P` -/
+theorem foldl_erase_perm : ∀ (vs P : List Elem),
+    P.length ≤ (vs.foldl List.erase P).length + vs.length
+    ∧ ((vs.foldl List.erase P).length + vs.length = P.length → P.Perm (vs ++ vs.foldl List.erase P)) := by
+  intro vs
   induction vs with
-  | nil => intro xs; simp
-  | cons v vs ih =>
-    intro xs
-    rw [List.foldl_cons, List.length_cons]
-    have := ih (xs.erase v)
-    have h2 : xs.length ≤ (xs.erase v).length + 1 := by
-      rw [List.length_erase]; split <;> omega
-    omega
+  | nil => intro P; exact ⟨by simp, fun _ => by simp⟩
+  | cons a t ih =>
+    intro P
+    obtain ⟨h1, h2⟩ := ih (P.erase a)
+    simp only [List.foldl_cons, List.length_cons]
+    by_cases ha : a ∈ P
+    · have hl : (P.erase a).length = P.length - 1 := List.length_erase_of_mem ha
+      have hpos : 0 < P.length := List.length_pos_of_mem ha
+      refine ⟨by omega, ?_⟩
+      intro heq
+      have := h2 (by omega)
+      exact (List.perm_cons_erase ha).trans (List.Perm.cons a this)
+    · rw [List.erase_of_not_mem ha] at h1 h2 ⊢
+      exact ⟨by omega, fun heq => by omega⟩
 
-/-- when every erasure removes something, the erased values plus what is left are the list -/
-theorem foldl_erase_perm (vs : List Elem) : ∀ (xs : List Elem),
-    (vs.foldl List.erase xs).length + vs.length = xs.length → (vs ++ vs.foldl List.erase xs).Perm xs := by
-  induction vs with
-  | nil => intro xs _; exact List.Perm.refl _
-  | cons v vs ih =>
-    intro xs h
-    rw [List.foldl_cons, List.length_cons] at h
-    have h1 := foldl_erase_length vs (xs.erase v)
-    have hmem : v ∈ xs := by
-      apply Classical.byContradiction
-      intro hn
-      rw [List.erase_of_not_mem hn] at h1 h
-      omega
-    have hlen : (xs.erase v).length = xs.length - 1 := by rw [List.length_erase, if_pos hmem]
-    have hpos : 0 < xs.length := List.length_pos_of_mem hmem
-    rw [List.foldl_cons, List.cons_append]
-    exact (List.Perm.cons v (ih (xs.erase v) (by omega))).trans (List.perm_cons_erase hmem).symm
-
-theorem foldl_erase_perm_conv (vs : List Elem) : ∀ (xs R : List Elem), (vs ++ R).Perm xs →
-    (vs.foldl List.erase xs).Perm R := by
-  induction vs with
-  | nil => intro xs R h; exact h.symm
-  | cons v vs ih =>
-    intro xs R h
-    rw [List.foldl_cons]
-    apply ih
-    have hmem : v ∈ xs := h.subset (by simp)
-    have := (List.perm_cons_erase hmem)
-    rw [List.cons_append] at h
-    exact (List.Perm.cons_inv (h.trans this))
-
-/-! ### soundness -/
-
-theorem specCycle_length (ac : Bool) (ys : List Elem) (cy : Cycle) :
-    (specCycle ac ys cy).length = cycleOpCount cy := by
-  unfold specCycle cycleOpCount
-  simp only [List.length_append, List.length_map, List.length_range, List.length_cons]
-  split <;> simp <;> omega
-
-/-- **one cycle, checker ⇒ statement**: outputs of the right number that violate no clause are
-    `specCycle ac ys cy` for a non-decreasing permutation `ys` of the pushed values -/
-theorem checkCycle_sound (ac : Bool) (cy : Cycle) (outs : List Out)
-    (hlen : outs.length = cycleOpCount cy) (h : checkCycle ac cy outs = none) :
-    ∃ ys, SortedPermOf ys cy.pushes ∧ outs = specCycle ac ys cy := by
-  have C := (checkCycle_none_iff ac cy outs).mp h
-  obtain ⟨pushes, k, clear⟩ := cy
-  simp only [cycleOpCount] at hlen
-  obtain ⟨c1, c2, c3, c5, c6, c7, c8, c9, c10, c11⟩ := C
-  dsimp only at c1 c2 c3 c5 c6 c7 c8 c9 c10 c11
-  generalize hn : pushes.length = n at *
-  generalize hP : (outs.drop (n + 1)).take k = P at *
-  generalize hvals : P.filterMap (·.val) = vals at *
-  have hPlen : P.length = k := by
-    rw [← hP, List.length_take, List.length_drop]; split at hlen <;> omega
-  -- the values delivered are those of the first `min n k` pulls
-  have hsplit : vals = (P.take n).filterMap (·.val) := by
-    rw [← hvals]
-    conv => lhs; rw [← List.take_append_drop n P]
-    rw [List.filterMap_append, filterMap_none _ _ (fun o ho => (c9 o ho).2), List.append_nil]
-  have hmap : (P.take n).map (·.val) = vals.map some := by
-    rw [hsplit]; exact map_eq_filterMap_some _ _ (fun o ho => (c5 o ho).2)
-  have hvlen : vals.length = min n k := by
-    have := congrArg List.length hmap
-    simp only [List.length_map, List.length_take, hPlen] at this
-    omega
-  -- the sorted enumeration: the delivered values, then the rest in sorted order
-  let R := vals.foldl List.erase pushes
-  have hperm0 : (vals ++ R).Perm pushes := foldl_erase_perm vals pushes (by rw [hn]; exact c7)
-  have hperm : (vals ++ sortRun R).Perm pushes :=
-    (List.Perm.append_left vals (Biogo.Morass.sortRun_perm R)).trans hperm0
-  have hsorted : Sorted (vals ++ sortRun R) := by
-    unfold Sorted
-    rw [List.pairwise_append]
-    refine ⟨?_, Biogo.Morass.sortRun_sorted R, ?_⟩
-    · have := nondecreasing_pairwise _ c3
-      rw [List.pairwise_map] at this
-      exact this
-    · intro a ha b hb
-      have hbR : b ∈ R := (Biogo.Morass.sortRun_perm R).subset hb
-      -- keys: S = sorted keys of the pushes; its first |vals| are the keys of vals, the rest those of R
-      have hS := Biogo.Properties.C11.sortKeys_perm (pushes.map (·.key))
-      have hSs := Biogo.Properties.C11.sortKeys_sorted (pushes.map (·.key))
-      generalize sortKeys (pushes.map (·.key)) = S at hS hSs c8
-      have hk : (S.take vals.length ++ S.drop vals.length).Perm (vals.map (·.key) ++ R.map (·.key)) := by
-        rw [List.take_append_drop, ← List.map_append]
-        exact hS.trans (hperm0.map _).symm
-      rw [← c8, List.perm_append_left_iff] at hk
-      have hb' : b.key ∈ S.drop vals.length := hk.symm.subset (List.mem_map_of_mem hbR)
-      have ha' : a.key ∈ S.take vals.length := by rw [← c8]; exact List.mem_map_of_mem ha
-      rw [← List.take_append_drop vals.length S, List.pairwise_append] at hSs
-      exact hSs.2.2 _ ha' _ hb'
-  have hyslen : (vals ++ sortRun R).length = n := by rw [hperm.length_eq, hn]
-  refine ⟨vals ++ sortRun R, ⟨hperm, hsorted⟩, ?_⟩
-  -- the pulls, one by one
-  have hpull : P = (List.range k).map (fun j =>
-      match (vals ++ sortRun R)[j]? with
-      | some e => (⟨.ok, some e, n, j + 1⟩ : Out)
-      | none => ⟨.eof, none, if ac then 0 else n, if ac then 0 else n⟩) := by
-    apply List.ext_getElem?
+theorem filterMap_val_some : ∀ (l : List Out), (∀ o ∈ l, o.val.isSome = true) →
+    (l.filterMap (·.val)).length = l.length ∧ ∀ (j : Nat), (l[j]?).map (fun o : Out => o.val) = ((l.filterMap (·.val))[j]?).map some := by
+  intro l
+  induction l with
+  | nil => intro _; exact ⟨rfl, fun j => by simp⟩
+  | cons o t ih =>
+    intro h
+    obtain ⟨v, hv⟩ := Option.isSome_iff_exists.mp (h o (by simp))
+    obtain ⟨h1, h2⟩ := ih (fun x hx => h x (List.mem_cons_of_mem _ hx))
+    have e : (o :: t).filterMap (·.val) = v :: t.filterMap (·.val) := by
+      simp [hv]
+    rw [e]
+    refine ⟨by simp [h1], ?_⟩
     intro j
-    by_cases hj : j < k
-    · rw [List.getElem?_map, List.getElem?_range hj, Option.map_some]
-      obtain ⟨o, ho, hlp⟩ := c10 j hj
-      rw [ho]
-      by_cases hjn : j < n
-      · rw [if_pos hjn] at hlp
-        have hoT : (P.take n)[j]? = some o := by rw [List.getElem?_take_of_lt hjn]; exact ho
-        have hmem : o ∈ P.take n := List.mem_of_getElem? hoT
-        obtain ⟨hres, hval⟩ := c5 o hmem
-        have := congrArg (fun l => l[j]?) hmap
-        simp only [List.getElem?_map, hoT, Option.map_some] at this
-        cases hv : vals[j]? with
-        | none => rw [hv] at this; cases this
-        | some v =>
-          rw [hv, Option.map_some, Option.some.injEq] at this
-          have hjv : j < vals.length := (List.getElem?_eq_some_iff.mp hv).1
-          rw [List.getElem?_append_left hjv, hv]
-          simp only []
-          obtain ⟨r, vl, l, p⟩ := o
-          simp only [] at hres this hlp
-          rw [hres, this, hlp.1, hlp.2]
-      · rw [if_neg hjn] at hlp
-        have hoD : (P.drop n)[j - n]? = some o := by
-          rw [List.getElem?_drop, show n + (j - n) = j by omega]; exact ho
-        obtain ⟨hres, hval⟩ := c9 o (List.mem_of_getElem? hoD)
-        have hnone : (vals ++ sortRun R)[j]? = none := by
-          rw [List.getElem?_eq_none_iff, hyslen]; omega
-        rw [hnone]
-        simp only []
-        obtain ⟨r, vl, l, p⟩ := o
-        simp only [] at hres hval hlp
-        rw [hres, hval, hlp.1, hlp.2]
-    · rw [List.getElem?_eq_none_iff.mpr (by omega), List.getElem?_eq_none_iff.mpr (by simp; omega)]
-  -- assembling the cycle
-  have hnlt : n < outs.length := by split at hlen <;> omega
-  have hfin : outs[n] = ⟨.ok, none, n, 0⟩ := by
-    rw [List.getElem?_eq_getElem hnlt] at c2
-    exact Option.some.inj c2
-  have hrest : (outs.drop (n + 1)).drop k = if clear then [(⟨.ok, none, 0, 0⟩ : Out)] else [] := by
-    rw [List.drop_drop]
-    cases hc : clear with
-    | false =>
-      rw [hc] at hlen
-      simp only [Bool.false_eq_true, if_false] at hlen ⊢
-      exact List.drop_of_length_le (by omega)
-    | true =>
-      rw [hc] at hlen
-      simp only [if_true] at hlen ⊢
-      have hlt : n + 1 + k < outs.length := by omega
-      have := c11 hc
-      rw [List.getElem?_eq_getElem hlt] at this
-      rw [List.drop_eq_getElem_cons hlt, Option.some.inj this, List.drop_of_length_le (by omega)]
-  unfold specCycle
-  simp only []
-  rw [hn]
-  conv => lhs; rw [← List.take_append_drop n outs, List.drop_eq_getElem_cons hnlt, hfin,
-    ← List.take_append_drop k (outs.drop (n + 1)), hP, hrest]
-  rw [c1, hpull]
-  rfl
+    cases j with
+    | zero => simp [hv]
+    | succ j => simpa using h2 j
 
-/-! ### completeness -/
+theorem filterMap_val_none (l : List Out) (h : ∀ o ∈ l, o.val = none) : l.filterMap (·.val) = [] := by
+  apply List.filterMap_eq_nil_iff.mpr
+  intro o ho; exact h o ho
 
-theorem sorted_keys (ys xs : List Elem) (h : SortedPermOf ys xs) :
-    ys.map (·.key) = sortKeys (xs.map (·.key)) := by
-  apply Biogo.Properties.C11.sorted_perm_unique
-  · exact (h.1.map _).trans (Biogo.Properties.C11.sortKeys_perm _).symm
-  · have := h.2
-    unfold Sorted at this
-    rw [List.pairwise_map]; exact this
-  · exact Biogo.Properties.C11.sortKeys_sorted _
+theorem sorted_take_le_drop {S : List Int} (hS : S.Pairwise (· ≤ ·)) (k : Nat) :
+    ∀ a ∈ S.take k, ∀ b ∈ S.drop k, a ≤ b := by
+  rw [← List.take_append_drop k S] at hS
+  exact (List.pairwise_append.mp hS).2.2
 
-/-- **one cycle, statement ⇒ checker**: the outputs the property describes violate no clause, so
-    the checker rejects no correct implementation -/
-theorem checkCycle_complete (ac : Bool) (cy : Cycle) (ys : List Elem) (h : SortedPermOf ys cy.pushes) :
-    checkCycle ac cy (specCycle ac ys cy) = none := by
-  rw [checkCycle_none_iff]
-  obtain ⟨pushes, k, clear⟩ := cy
-  dsimp only at h
-  have hys : ys.length = pushes.length := h.1.length_eq
-  generalize hn : pushes.length = n at *
-  -- the shape of the outputs
-  let g : Nat → Out := fun j =>
-    match ys[j]? with
-    | some e => (⟨.ok, some e, n, j + 1⟩ : Out)
-    | none => ⟨.eof, none, if ac then 0 else n, if ac then 0 else n⟩
-  let A : List Out := (List.range n).map (fun i => (⟨.ok, none, i + 1, i + 1⟩ : Out))
-  let C : List Out := if clear then [(⟨.ok, none, 0, 0⟩ : Out)] else []
-  have hO : specCycle ac ys ⟨pushes, k, clear⟩ = A ++ (⟨.ok, none, n, 0⟩ :: ((List.range k).map g ++ C)) := by
-    unfold specCycle
-    dsimp only
-    rw [hn]
-    rfl
-  have hA : A.length = n := by simp [A]
-  have hPm : ((List.range k).map g).length = k := by simp
-  have hdrop : (A ++ (⟨.ok, none, n, 0⟩ :: ((List.range k).map g ++ C))).drop (n + 1) = (List.range k).map g ++ C := by
-    rw [List.drop_append, hA, List.drop_of_length_le (by omega), List.nil_append,
-      show n + 1 - n = 1 by omega]
-    rfl
-  have hP : ((A ++ (⟨.ok, none, n, 0⟩ :: ((List.range k).map g ++ C))).drop (n + 1)).take k = (List.range k).map g := by
-    rw [hdrop, List.take_append_of_le_length (by omega), List.take_of_length_le (by omega)]
-  have hgval : ∀ j, (g j).val = ys[j]? := by
-    intro j; simp only [g]; cases ys[j]? <;> rfl
-  have hvals : ((List.range k).map g).filterMap (·.val) = ys.take k := by
-    rw [List.filterMap_map, ← Biogo.Properties.C11.range_filterMap_getElem? ys k]
-    congr 1
-    funext j
-    exact hgval j
-  have hgsome : ∀ j, j < n → (g j).res = .ok ∧ (g j).val.isSome = true ∧ (g j).len = n ∧ (g j).pos = j + 1 := by
-    intro j hj
-    have : j < ys.length := by omega
-    simp [g, List.getElem?_eq_getElem this]
-  have hgnone : ∀ j, n ≤ j → (g j).res = .eof ∧ (g j).val = none ∧
-      (g j).len = (if ac then 0 else n) ∧ (g j).pos = (if ac then 0 else n) := by
-    intro j hj
-    have : ys[j]? = none := List.getElem?_eq_none_iff.mpr (by omega)
-    simp [g, this]
-  have hSk := sorted_keys ys pushes h
-  rw [hO]
-  refine ⟨?_, ?_, ?_, ?_, ?_, ?_, ?_, ?_, ?_, ?_⟩
-  all_goals (try dsimp only)
-  all_goals rw [hn]
-  · rw [List.take_append_of_le_length (by omega), List.take_of_length_le (by omega)]
-  · rw [List.getElem?_append_right (by omega), hA, Nat.sub_self]; rfl
-  · rw [hP, hvals]
-    apply pairwise_nondecreasing
-    rw [List.pairwise_map]
-    exact List.Pairwise.sublist (List.take_sublist _ _) h.2
-  · rw [hP]
-    intro o ho
-    rw [List.mem_take_iff_getElem] at ho
-    obtain ⟨j, hj, rfl⟩ := ho
-    rw [hPm] at hj
-    rw [List.getElem_map, List.getElem_range]
-    exact ⟨(hgsome j (by omega)).1, (hgsome j (by omega)).2.1⟩
-  · intro hle
-    rw [hP, hvals, List.take_of_length_le (by omega)]
-    exact h.1
-  · rw [hP, hvals]
-    have hp : (ys.take k ++ ys.drop k).Perm pushes := by rw [List.take_append_drop]; exact h.1
-    have := (foldl_erase_perm_conv (ys.take k) pushes (ys.drop k) hp).length_eq
-    rw [this, List.length_drop, List.length_take]
-    omega
-  · rw [hP, hvals, List.map_take, hSk, List.length_take]
-    have hSl : (sortKeys (pushes.map (·.key))).length = n := by
-      rw [← hSk, List.length_map]; omega
-    by_cases hkn : k ≤ n
-    · rw [show min k ys.length = k by omega]
-    · rw [show min k ys.length = n by omega, List.take_of_length_le (by omega), List.take_of_length_le (by omega)]
-  · rw [hP]
-    intro o ho
-    rw [List.mem_drop_iff_getElem] at ho
-    obtain ⟨j, hj, rfl⟩ := ho
-    rw [List.getElem_map, List.getElem_range]
-    exact ⟨(hgnone (n + j) (by omega)).1, (hgnone (n + j) (by omega)).2.1⟩
-  · rw [hP]
-    intro j hj
-    refine ⟨g j, by rw [List.getElem?_map, List.getElem?_range hj]; rfl, ?_⟩
-    by_cases hjn : j < n
-    · rw [if_pos hjn]; exact ⟨(hgsome j hjn).2.2.1, (hgsome j hjn).2.2.2⟩
-    · rw [if_neg hjn]; exact ⟨(hgnone j (by omega)).2.2.1, (hgnone j (by omega)).2.2.2⟩
-  · intro hc
-    rw [List.getElem?_append_right (by omega), hA, show n + 1 + k - n = k + 1 by omega,
-      List.getElem?_cons_succ, List.getElem?_append_right (by omega), hPm, Nat.sub_self]
-    simp only [C, hc, if_true]
+/-! ### one cycle -/
+
+theorem ite_none {c : Prop} [Decidable c] {s : String} {e : Option String}
+    (h : (if c then some s else e) = none) : ¬ c ∧ e = none := by
+  by_cases hc : c
+  · rw [if_pos hc] at h; cases h
+  · rw [if_neg hc] at h; exact ⟨hc, h⟩
+
+theorem any_false {α} {l : List α} {p : α → Bool} (h : ¬ l.any p = true) : ∀ x ∈ l, p x = false := by
+  intro x hx
+  cases hp : p x with
+  | false => rfl
+  | true => exact absurd (List.any_eq_true.mpr ⟨x, hx, hp⟩) h
+
+theorem checkCycle_sound (ac : Bool) (cy : Cycle) (o : List Out) (hlen : o.length = cycleOpCount cy)
+    (h : checkCycle ac cy o = none) : ∃ ys, SortedPermOf ys cy.pushes ∧ o = specCycle ac ys cy := by
+  delta checkCycle at h
+  extract_lets n pushO po vals at h
+  obtain ⟨c1, h1⟩ := ite_none h; clear h
+  obtain ⟨c2, h2⟩ := ite_none h1; clear h1
+  obtain ⟨c3, h3⟩ := ite_none h2; clear h2
+  obtain ⟨c4, h4⟩ := ite_none h3; clear h3
+  obtain ⟨c5, h5⟩ := ite_none h4; clear h4
+  obtain ⟨_, h6⟩ := ite_none h5; clear h5
+  obtain ⟨c7, h7⟩ := ite_none h6; clear h6
+  obtain ⟨c8, h8⟩ := ite_none h7; clear h7
+  obtain ⟨c9, h9⟩ := ite_none h8; clear h8
+  obtain ⟨c10, h10⟩ := ite_none h9; clear h9
+  obtain ⟨c11, _⟩ := ite_none h10; clear h10
+  have c1 : pushO = (List.range n).map (fun i => (⟨.ok, none, i + 1, i + 1⟩ : Out)) := Decidable.not_not.mp c1
+  have c2 : o[n]? = some ⟨.ok, none, n, 0⟩ := Decidable.not_not.mp c2
+  have c3 : nondecreasing (vals.map (·.key)) = true := by simpa using c3
+  have c7 : (vals.foldl List.erase cy.pushes).length + vals.length = n := Decidable.not_not.mp c7
+  have c8 : vals.map (·.key) = (sortKeys (cy.pushes.map (·.key))).take vals.length := Decidable.not_not.mp c8
+  have c4 := any_false c4
+  have c5 := any_false c5
+  have c9 := any_false c9
+  have c10 := any_false c10
+  -- lengths
+  have hcount : o.length = n + 1 + cy.pulls + (if cy.clear then 1 else 0) := by
+    rw [hlen]; rfl
+  have hpo : po.length = cy.pulls := by
+    show ((o.drop (n + 1)).take cy.pulls).length = _
+    rw [List.length_take, List.length_drop]; omega
+  -- the first min(n, pulls) pulls deliver a value each, the others none
+  have hsome : ∀ x ∈ po.take n, x.val.isSome = true := by
+    intro x hx
+    have := c5 x hx
+    simp only [Bool.or_eq_false_iff] at this
+    cases hv : x.val with
+    | none => rw [hv] at this; simp at this
+    | some v => rfl
+  have hnone : ∀ x ∈ po.drop n, x.val = none := by
+    intro x hx
+    have := c9 x hx
+    simp only [Bool.or_eq_false_iff] at this
+    cases hv : x.val with
+    | none => rfl
+    | some v => rw [hv] at this; simp at this
+  have hvals : vals = (po.take n).filterMap (·.val) := by
+    show po.filterMap (·.val) = _
+    conv => lhs; rw [← List.take_append_drop n po]
+    rw [List.filterMap_append, filterMap_val_none _ hnone, List.append_nil]
+  obtain ⟨hvl, hvj⟩ := filterMap_val_some (po.take n) hsome
+  rw [← hvals] at hvl hvj
+  have hvlen : vals.length = min n cy.pulls := by rw [hvl, List.length_take, hpo]
+  -- the sorted enumeration
+  let rest := vals.foldl List.erase cy.pushes
+  have hperm : cy.pushes.Perm (vals ++ rest) := (foldl_erase_perm vals cy.pushes).2 c7
+  have hS := sortKeys_sorted (cy.pushes.map (·.key))
+  have hSp := sortKeys_perm (cy.pushes.map (·.key))
+  have hrestKeys : (rest.map (·.key)).Perm ((sortKeys (cy.pushes.map (·.key))).drop vals.length) := by
+    have e1 : (sortKeys (cy.pushes.map (·.key))).Perm (vals.map (·.key) ++ rest.map (·.key)) := by
+      rw [← List.map_append]; exact hSp.trans (hperm.map _)
+    rw [c8] at e1
+    have e2 : ((sortKeys (cy.pushes.map (·.key))).take vals.length ++ (sortKeys (cy.pushes.map (·.key))).drop vals.length).Perm
+        ((sortKeys (cy.pushes.map (·.key))).take vals.length ++ rest.map (·.key)) := by
+      rw [List.take_append_drop]; exact e1
+    exact ((List.perm_append_left_iff _).mp e2).symm
+  refine ⟨vals ++ sortRun rest, ⟨?_, ?_⟩, ?_⟩
+  · exact ((List.Perm.append_left vals (sortRun_perm rest)).trans hperm.symm)
+  · apply List.pairwise_append.mpr
+    refine ⟨List.pairwise_map.mp (nondecreasing_pairwise _ c3), sortRun_sorted rest, ?_⟩
+    intro a ha b hb
+    have ha' : a.key ∈ (sortKeys (cy.pushes.map (·.key))).take vals.length := by
+      rw [← c8]; exact List.mem_map_of_mem ha
+    have hb' : b.key ∈ (sortKeys (cy.pushes.map (·.key))).drop vals.length := by
+      apply hrestKeys.mem_iff.mp
+      exact List.mem_map_of_mem ((sortRun_perm rest).mem_iff.mp hb)
+    exact sorted_take_le_drop hS _ _ ha' _ hb'
+  · -- the outputs are exactly those of the specification
+    have hrl : rest.length + vals.length = n := c7
+    have hyl : (vals ++ sortRun rest).length = n := by
+      rw [List.length_append, sortRun_length]; omega
+    have hnlt : n < o.length := by omega
+    have hfin : o[n] = ⟨.ok, none, n, 0⟩ := by
+      have := List.getElem?_eq_getElem hnlt
+      rw [c2] at this; exact (Option.some.inj this).symm
+    -- the tail after the pulls
+    have hT : o.drop (n + 1 + cy.pulls) = if cy.clear then [(⟨.ok, none, 0, 0⟩ : Out)] else [] := by
+      have hTl : (o.drop (n + 1 + cy.pulls)).length = if cy.clear then 1 else 0 := by
+        rw [List.length_drop]; omega
+      cases hcl : cy.clear with
+      | false =>
+        rw [hcl] at hTl
+        have : o.drop (n + 1 + cy.pulls) = [] := List.eq_nil_of_length_eq_zero (by simpa using hTl)
+        rw [this]; rfl
+      | true =>
+        rw [hcl] at hTl
+        simp only [if_true] at hTl ⊢
+        obtain ⟨a, ha⟩ := List.length_eq_one_iff.mp hTl
+        have h0 : (o.drop (n + 1 + cy.pulls))[0]? = o[n + 1 + cy.pulls]? := by
+          rw [List.getElem?_drop]; rfl
+        have hc : o[n + 1 + cy.pulls]? = some ⟨.ok, none, 0, 0⟩ := by
+          have := c11
+          rw [hcl] at this
+          simpa using this
+        rw [ha] at h0 ⊢
+        rw [hc] at h0
+        simp only [List.getElem?_cons_zero, Option.some.injEq] at h0
+        rw [h0]
+    -- the pulls
+    have hP : po = (List.range cy.pulls).map (fun j =>
+        match (vals ++ sortRun rest)[j]? with
+        | some e => (⟨.ok, some e, n, j + 1⟩ : Out)
+        | none => ⟨.eof, none, if ac then 0 else n, if ac then 0 else n⟩) := by
+      apply List.ext_getElem
+      · rw [hpo, List.length_map, List.length_range]
+      · intro j hj1 hj2
+        rw [List.getElem_map, List.getElem_range]
+        have hjp : j < cy.pulls := by rw [← hpo]; exact hj1
+        have hq : po[j]? = some po[j] := List.getElem?_eq_getElem hj1
+        have h10 := c10 j (List.mem_range.mpr hjp)
+        rw [hq] at h10
+        simp only at h10
+        by_cases hjn : j < n
+        · -- a value
+          have hmem : po[j] ∈ po.take n := by
+            apply List.mem_iff_getElem?.mpr
+            exact ⟨j, by rw [List.getElem?_take_of_lt hjn]; exact hq⟩
+          have h4 := c4 _ hmem
+          have h5 := c5 _ hmem
+          have hjv : j < vals.length := by rw [hvlen]; omega
+          have hv := hvj j
+          rw [List.getElem?_take_of_lt hjn, hq, List.getElem?_eq_getElem hjv] at hv
+          simp only [Option.map_some, Option.some.injEq] at hv
+          have hy : (vals ++ sortRun rest)[j]? = some vals[j] := by
+            rw [List.getElem?_append_left hjv, List.getElem?_eq_getElem hjv]
+          rw [hy]
+          simp only [hjn, if_true, Bool.or_eq_false_iff, bne_eq_false_iff_eq] at h10 h5
+          generalize po[j] = x at *
+          obtain ⟨r, v, l, p⟩ := x
+          simp only at hv h10 h5
+          simp only [Out.mk.injEq]
+          exact ⟨h5.1, hv, h10.1, h10.2⟩
+        · -- io.EOF
+          have hmem : po[j] ∈ po.drop n := by
+            apply List.mem_iff_getElem?.mpr
+            refine ⟨j - n, ?_⟩
+            rw [List.getElem?_drop]
+            have : n + (j - n) = j := by omega
+            rw [this]; exact hq
+          have h9 := c9 _ hmem
+          have hy : (vals ++ sortRun rest)[j]? = none := List.getElem?_eq_none (by omega)
+          rw [hy]
+          simp only [hjn, if_false, Bool.or_eq_false_iff, bne_eq_false_iff_eq] at h10 h9
+          generalize po[j] = x at *
+          obtain ⟨r, v, l, p⟩ := x
+          simp only at h10 h9
+          simp only [Out.mk.injEq]
+          refine ⟨h9.1, ?_, h10.1, h10.2⟩
+          cases v with
+          | none => rfl
+          | some _ => simp at h9
+    -- putting the pieces together
+    have hsplit : o = o.take n ++ (o[n] :: ((o.drop (n + 1)).take cy.pulls ++ o.drop (n + 1 + cy.pulls))) := by
+      conv => lhs; rw [← List.take_append_drop n o]
+      congr 1
+      rw [List.drop_eq_getElem_cons hnlt]
+      congr 1
+      conv => lhs; rw [← List.take_append_drop cy.pulls (o.drop (n + 1))]
+      rw [List.drop_drop]
+    rw [hsplit]
+    show pushO ++ (o[n] :: (po ++ o.drop (n + 1 + cy.pulls))) = specCycle ac (vals ++ sortRun rest) cy
+    rw [c1, hfin, hT, hP]
     rfl
 
 /-! ### whole histories -/
 
-theorem cycleOps_length (cy : Cycle) : cy.ops.length = cycleOpCount cy := by
+theorem cycle_ops_length (cy : Cycle) : cy.ops.length = cycleOpCount cy := by
   unfold Cycle.ops cycleOpCount
-  simp only [List.length_append, List.length_map, List.length_cons, List.length_replicate]
-  split <;> simp <;> omega
+  cases cy.clear <;> simp <;> omega
 
-/-- the number of calls of a history -/
-theorem histOps_length (h : List Cycle) : (histOps h).length = (h.map cycleOpCount).sum := by
-  unfold histOps
-  induction h with
-  | nil => rfl
-  | cons cy rest ih => rw [List.flatMap_cons, List.length_append, ih, cycleOps_length, List.map_cons, List.sum_cons]
-
-/-- **C11, checker ⇒ statement**: when the implementation answered every call of a well-formed
-    history (one output per call) and `checkHistory` reports no violation, its outputs satisfy
-    `HistorySpec` — the conclusion of `history_sorted_multiset` with the implementation's outputs in
-    place of the model's. -/
+/-- **The executable statement implies the specification.**  If `checkHistory` accepts the
+    outputs of the calls of the history `h` (one output per call), they satisfy `HistorySpec`:
+    for every cycle there is a non-decreasing permutation `ys` of the values pushed in that
+    cycle such that the outputs of the cycle are exactly `specCycle ac ys cy` — every
+    `Push`/`Finalise`/`Clear` succeeded with the `Len`/`Pos` the property states, the j-th `Pull`
+    delivered `ys[j]`, then io.EOF. -/
 theorem checkHistory_sound (ac : Bool) : ∀ (h : List Cycle) (i : Nat) (outs : List Out),
-    outs.length = (h.map cycleOpCount).sum → checkHistory ac h i outs = none → HistorySpec ac h outs
-  | [], _, outs, hlen, _ => by
-    simp only [List.map_nil, List.sum_nil] at hlen
+    outs.length = (histOps h).length → checkHistory ac h i outs = none → HistorySpec ac h outs := by
+  intro h
+  induction h with
+  | nil =>
+    intro i outs hlen _
+    simp only [histOps, List.flatMap_nil, List.length_nil] at hlen
     exact List.eq_nil_of_length_eq_zero hlen
-  | cy :: rest, i, outs, hlen, hc => by
-    rw [List.map_cons, List.sum_cons] at hlen
-    unfold checkHistory at hc
-    cases hcy : checkCycle ac cy (outs.take (cycleOpCount cy)) with
-    | some why => rw [hcy] at hc; cases hc
+  | cons cy rest ih =>
+    intro i outs hlen hc
+    have hops : (histOps (cy :: rest)).length = cycleOpCount cy + (histOps rest).length := by
+      simp only [histOps, List.flatMap_cons, List.length_append, cycle_ops_length]
+    rw [hops] at hlen
+    simp only [checkHistory] at hc
+    cases hcc : checkCycle ac cy (outs.take (cycleOpCount cy)) with
+    | some why => rw [hcc] at hc; cases hc
     | none =>
-      rw [hcy] at hc
-      obtain ⟨ys, hys, htake⟩ := checkCycle_sound ac cy _ (by rw [List.length_take]; omega) hcy
-      have ih := checkHistory_sound ac rest (i + 1) (outs.drop (cycleOpCount cy))
-        (by rw [List.length_drop]; omega) hc
-      exact ⟨ys, outs.drop (cycleOpCount cy), hys, by rw [← htake, List.take_append_drop], ih⟩
+      rw [hcc] at hc
+      obtain ⟨ys, hys, hspec⟩ := checkCycle_sound ac cy (outs.take (cycleOpCount cy))
+        (by rw [List.length_take]; omega) hcc
+      refine ⟨ys, outs.drop (cycleOpCount cy), hys, ?_, ?_⟩
+      · rw [← hspec, List.take_append_drop]
+      · exact ih (i + 1) _ (by rw [List.length_drop]; omega) hc
 
-/-- **C11, statement ⇒ checker**: outputs that satisfy `HistorySpec` pass `checkHistory` (and there
-    is one per call) -/
+/-- what the drivers of C11, C12 and C13 evaluate on the implementation's observation
+    (`historyStatement`: one output per call of the program, and `checkHistory`), for a program
+    that `historyOf` recognises as the well-formed history `h`: the implementation's outputs
+    satisfy the specification of `history_sorted_multiset` / `conc_history_sorted_multiset` -/
+theorem historyStatement_sound (ac : Bool) (ops : List Op) (h : List Cycle) (outs : List Out)
+    (hh : historyOf ac ops = some h) (hs : historyStatement ac h ops outs = none) :
+    wellFormed ac h = true ∧ histOps h = ops ∧ HistorySpec ac h outs := by
+  unfold historyOf at hh
+  split at hh
+  · rename_i g hg
+    split at hh
+    · rename_i hcond
+      simp only [Option.some.injEq] at hh
+      subst hh
+      unfold historyStatement at hs
+      split at hs
+      · cases hs
+      · rename_i hl
+        have hl : outs.length = ops.length := Decidable.not_not.mp hl
+        exact ⟨hcond.2, hcond.1, checkHistory_sound ac g 1 outs (by rw [hcond.1]; exact hl) hs⟩
+    · cases hh
+  · cases hh
+
+/-! ### programs with rejected pushes -/
+
+/-- the statement about rejected pushes determines the outputs of the program from the outputs of
+    its accepted calls: they are `weave ops (accepted outputs)` — at every rejected `Push` the
+    type-mismatch error, no value, `Len`/`Pos` unchanged — and the accepted outputs are one per
+    accepted call -/
+theorem rejectsStatement_sound : ∀ (ops : List Op) (outs : List Out) (l p : Nat), outs.length = ops.length →
+    rejectsStatement ops outs l p = none →
+    outs = weave ops (dropRejOuts outs) l p ∧ (dropRejOuts outs).length = (dropRejects ops).length := by
+  intro ops
+  induction ops with
+  | nil =>
+    intro outs l p hlen _
+    have : outs = [] := List.eq_nil_of_length_eq_zero (by simpa using hlen)
+    subst this; exact ⟨rfl, rfl⟩
+  | cons op ops ih =>
+    intro outs l p hlen h
+    cases outs with
+    | nil => simp at hlen
+    | cons o outs =>
+      simp only [List.length_cons, Nat.add_right_cancel_iff] at hlen
+      have nonrej : op ≠ Op.reject → (if o.res = .rejected then some "type-mismatch-returned-by-an-accepted-call"
+            else rejectsStatement ops outs o.len o.pos) = none →
+          (o :: outs = weave (op :: ops) (dropRejOuts (o :: outs)) l p
+            ∧ (dropRejOuts (o :: outs)).length = (dropRejects (op :: ops)).length) := by
+        intro hop h
+        by_cases hr : o.res = .rejected
+        · rw [if_pos hr] at h; cases h
+        · rw [if_neg hr] at h
+          obtain ⟨h1, h2⟩ := ih outs o.len o.pos hlen h
+          have e1 : dropRejOuts (o :: outs) = o :: dropRejOuts outs := by
+            simp [dropRejOuts, List.filter_cons, hr]
+          have e2 : dropRejects (op :: ops) = op :: dropRejects ops := by
+            simp [dropRejects, List.filter_cons, hop]
+          rw [e1, e2]
+          refine ⟨?_, by simp [h2]⟩
+          cases op with
+          | reject => exact absurd rfl hop
+          | push e => simp only [weave]; rw [← h1]
+          | finalise => simp only [weave]; rw [← h1]
+          | pull => simp only [weave]; rw [← h1]
+          | clear => simp only [weave]; rw [← h1]
+      cases op with
+      | reject =>
+        simp only [rejectsStatement] at h
+        by_cases ho : o = ⟨.rejected, none, l, p⟩
+        · rw [if_pos ho] at h
+          obtain ⟨h1, h2⟩ := ih outs l p hlen h
+          subst ho
+          have e1 : dropRejOuts ((⟨.rejected, none, l, p⟩ : Out) :: outs) = dropRejOuts outs := by
+            simp [dropRejOuts, List.filter_cons]
+          have e2 : dropRejects (Op.reject :: ops) = dropRejects ops := by
+            simp [dropRejects, List.filter_cons]
+          rw [e1, e2]
+          refine ⟨?_, h2⟩
+          simp only [weave]; rw [← h1]
+        · rw [if_neg ho] at h; cases h
+      | push e => exact nonrej (by simp) (by simpa [rejectsStatement] using h)
+      | finalise => exact nonrej (by simp) (by simpa [rejectsStatement] using h)
+      | pull => exact nonrej (by simp) (by simpa [rejectsStatement] using h)
+      | clear => exact nonrej (by simp) (by simpa [rejectsStatement] using h)
+
+/-- **what the drivers evaluate on a program with rejected pushes**: if `programStatement` accepts
+    the implementation's outputs of a program whose accepted calls `historyOf` recognises as the
+    well-formed history `h`, then the outputs of the accepted calls satisfy `HistorySpec ac h` and
+    every rejected `Push` is a no-op: the outputs are `weave ops (accepted outputs) 0 0`. -/
+theorem programStatement_sound (ac : Bool) (ops : List Op) (h : List Cycle) (outs : List Out)
+    (hh : historyOf ac (dropRejects ops) = some h) (hs : programStatement ac h ops outs = none) :
+    wellFormed ac h = true ∧ histOps h = dropRejects ops ∧ HistorySpec ac h (dropRejOuts outs)
+      ∧ outs = weave ops (dropRejOuts outs) 0 0 := by
+  unfold programStatement at hs
+  split at hs
+  · cases hs
+  · rename_i hl
+    have hl : outs.length = ops.length := Decidable.not_not.mp hl
+    cases hrs : rejectsStatement ops outs 0 0 with
+    | some why => rw [hrs] at hs; cases hs
+    | none =>
+      rw [hrs] at hs
+      obtain ⟨h1, h2, h3⟩ := historyStatement_sound ac (dropRejects ops) h (dropRejOuts outs) hh hs
+      exact ⟨h1, h2, h3, (rejectsStatement_sound ops outs 0 0 hl hrs).1⟩
+
+/-- non-vacuity: the checker accepts the outputs of the model on the witness history of F13 -/
+example : checkHistory false [⟨[⟨3,0⟩, ⟨1,0⟩, ⟨2,0⟩], 4, true⟩, ⟨[⟨9,0⟩, ⟨8,0⟩, ⟨7,0⟩, ⟨6,0⟩, ⟨5,0⟩], 6, true⟩] 1
+    (run (init 4 false) (histOps [⟨[⟨3,0⟩, ⟨1,0⟩, ⟨2,0⟩], 4, true⟩, ⟨[⟨9,0⟩, ⟨8,0⟩, ⟨7,0⟩, ⟨6,0⟩, ⟨5,0⟩], 6, true⟩])).2
+    = none := by decide
+
+/-- and rejects a history whose second cycle delivers a value of the first -/
+example : (checkHistory false [⟨[⟨2,0⟩], 0, true⟩, ⟨[], 1, false⟩] 1
+    [⟨.ok, none, 1, 1⟩, ⟨.ok, none, 1, 0⟩, ⟨.ok, none, 0, 0⟩, ⟨.ok, none, 0, 0⟩, ⟨.ok, some ⟨2,0⟩, 0, 1⟩]).isSome = true := by
+  decide
+
+/-! ### completeness: the checker demands no more than the specification -/
+
+theorem pairwise_nondecreasing : ∀ (l : List Int), l.Pairwise (· ≤ ·) → nondecreasing l = true
+  | [], _ => rfl
+  | [a], _ => rfl
+  | a :: b :: r, h => by
+    simp only [nondecreasing, Bool.and_eq_true, decide_eq_true_eq]
+    have h' := List.pairwise_cons.mp h
+    exact ⟨h'.1 b (by simp), pairwise_nondecreasing (b :: r) h'.2⟩
+
+/-- a sub-multiset is erased entry by entry -/
+theorem foldl_erase_sub : ∀ (vs P R : List Elem), P.Perm (vs ++ R) →
+    (vs.foldl List.erase P).length + vs.length = P.length := by
+  intro vs
+  induction vs with
+  | nil => intro P R _; simp
+  | cons a t ih =>
+    intro P R hp
+    have ha : a ∈ P := hp.mem_iff.mpr (by simp)
+    have hp' : (P.erase a).Perm (t ++ R) := by
+      have := hp.erase a
+      simpa using this
+    have := ih (P.erase a) R hp'
+    have hl : (P.erase a).length = P.length - 1 := List.length_erase_of_mem ha
+    have hpos : 0 < P.length := List.length_pos_of_mem ha
+    simp only [List.foldl_cons, List.length_cons]
+    omega
+
+theorem specCycle_length (ac : Bool) (ys : List Elem) (cy : Cycle) :
+    (specCycle ac ys cy).length = cycleOpCount cy := by
+  unfold specCycle cycleOpCount
+  cases cy.clear <;> simp <;> omega
+
+theorem ite_some_none {c : Prop} [Decidable c] {s : String} {e : Option String}
+    (hc : ¬ c) (he : e = none) : (if c then some s else e) = none := by
+  rw [if_neg hc]; exact he
+
+theorem any_eq_false' {α} {l : List α} {p : α → Bool} (h : ∀ x ∈ l, p x = false) : ¬ l.any p = true := by
+  intro ha
+  obtain ⟨x, hx, hp⟩ := List.any_eq_true.mp ha
+  rw [h x hx] at hp; cases hp
+
+theorem checkCycle_complete (ac : Bool) (cy : Cycle) (ys : List Elem) (hys : SortedPermOf ys cy.pushes) :
+    checkCycle ac cy (specCycle ac ys cy) = none := by
+  have hyl : ys.length = cy.pushes.length := hys.1.length_eq
+  -- the pieces of the specified outputs
+  let A : List Out := (List.range cy.pushes.length).map (fun i => (⟨.ok, none, i + 1, i + 1⟩ : Out))
+  let F : Out := ⟨.ok, none, cy.pushes.length, 0⟩
+  let P : List Out := (List.range cy.pulls).map (fun j =>
+        match ys[j]? with
+        | some e => (⟨.ok, some e, cy.pushes.length, j + 1⟩ : Out)
+        | none => ⟨.eof, none, if ac then 0 else cy.pushes.length, if ac then 0 else cy.pushes.length⟩)
+  let T : List Out := if cy.clear then [(⟨.ok, none, 0, 0⟩ : Out)] else []
+  have hspec : specCycle ac ys cy = A ++ (F :: (P ++ T)) := rfl
+  have hA : A.length = cy.pushes.length := by simp [A]
+  have hP : P.length = cy.pulls := by simp [P]
+  have h1 : (specCycle ac ys cy).take cy.pushes.length = A := by rw [hspec, List.take_left' hA]
+  have h2 : (specCycle ac ys cy)[cy.pushes.length]? = some F := by
+    rw [hspec, List.getElem?_append_right (by omega), hA]; simp
+  have h3 : ((specCycle ac ys cy).drop (cy.pushes.length + 1)).take cy.pulls = P := by
+    have : specCycle ac ys cy = (A ++ [F]) ++ (P ++ T) := by rw [hspec]; simp
+    rw [this, List.drop_left' (by simp [hA]), List.take_left' hP]
+  have h4 : cy.clear = true → (specCycle ac ys cy)[cy.pushes.length + 1 + cy.pulls]? = some ⟨.ok, none, 0, 0⟩ := by
+    intro hcl
+    have : specCycle ac ys cy = (A ++ [F] ++ P) ++ T := by rw [hspec]; simp
+    rw [this, List.getElem?_append_right (by simp [hA, hP]; omega)]
+    have e : cy.pushes.length + 1 + cy.pulls - (A ++ [F] ++ P).length = 0 := by simp [hA, hP]; omega
+    rw [e]
+    simp [T, hcl]
+  -- entries of the pulls
+  have hPj : ∀ j, j < cy.pulls → P[j]? = some (match ys[j]? with
+        | some e => (⟨.ok, some e, cy.pushes.length, j + 1⟩ : Out)
+        | none => ⟨.eof, none, if ac then 0 else cy.pushes.length, if ac then 0 else cy.pushes.length⟩) := by
+    intro j hj
+    simp [P, hj]
+  have hvals : P.filterMap (·.val) = ys.take cy.pulls := by
+    rw [← range_filterMap_getElem? ys cy.pulls]
+    simp only [P, List.filterMap_map]
+    congr 1
+    funext j
+    simp only [Function.comp]
+    cases ys[j]? <;> rfl
+  have hvl : (ys.take cy.pulls).length = min cy.pulls cy.pushes.length := by rw [List.length_take, hyl]
+  delta checkCycle
+  extract_lets n pushO po vals
+  have e1 : pushO = A := h1
+  have e3 : po = P := h3
+  have e4 : vals = ys.take cy.pulls := by show po.filterMap (·.val) = _; rw [e3, hvals]
+  have hn : n = cy.pushes.length := rfl
+  have inTake : ∀ x ∈ po.take n, ∃ j e, j < n ∧ ys[j]? = some e ∧ x = (⟨.ok, some e, cy.pushes.length, j + 1⟩ : Out) := by
+    intro x hx
+    rw [e3] at hx
+    obtain ⟨j, hj⟩ := List.mem_iff_getElem?.mp hx
+    have hjn : j < n := by
+      have := (List.getElem?_eq_some_iff.mp hj).1
+      rw [List.length_take] at this; omega
+    rw [List.getElem?_take_of_lt hjn] at hj
+    have hjp : j < cy.pulls := by
+      have := (List.getElem?_eq_some_iff.mp hj).1
+      rw [hP] at this; exact this
+    rw [hPj j hjp] at hj
+    have hjy : j < ys.length := by rw [hyl]; exact hjn
+    rw [List.getElem?_eq_getElem hjy] at hj
+    simp only [Option.some.injEq] at hj
+    exact ⟨j, ys[j], hjn, List.getElem?_eq_getElem hjy, hj.symm⟩
+  have inDrop : ∀ x ∈ po.drop n, x = (⟨.eof, none, if ac then 0 else cy.pushes.length, if ac then 0 else cy.pushes.length⟩ : Out) := by
+    intro x hx
+    rw [e3] at hx
+    obtain ⟨j, hj⟩ := List.mem_iff_getElem?.mp hx
+    rw [List.getElem?_drop] at hj
+    have hjp : n + j < cy.pulls := by
+      have := (List.getElem?_eq_some_iff.mp hj).1
+      rw [hP] at this; exact this
+    rw [hPj _ hjp, List.getElem?_eq_none (by rw [hyl]; omega)] at hj
+    simp only [Option.some.injEq] at hj
+    exact hj.symm
+  apply ite_some_none (by rw [e1]; simp [A, hn])
+  apply ite_some_none (by rw [h2]; simp [F, hn])
+  apply ite_some_none
+  · have : nondecreasing (vals.map (·.key)) = true := by
+      apply pairwise_nondecreasing
+      rw [e4]
+      exact List.pairwise_map.mpr (List.Pairwise.sublist (List.take_sublist _ _) hys.2)
+    simp [this]
+  apply ite_some_none
+  · apply any_eq_false'
+    intro x hx
+    obtain ⟨j, e, _, _, rfl⟩ := inTake x hx
+    rfl
+  apply ite_some_none
+  · apply any_eq_false'
+    intro x hx
+    obtain ⟨j, e, _, _, rfl⟩ := inTake x hx
+    rfl
+  apply ite_some_none
+  · intro h
+    simp only [Bool.and_eq_true, decide_eq_true_eq, Bool.not_eq_true'] at h
+    obtain ⟨hle, hnp⟩ := h
+    have : vals.isPerm cy.pushes = true := by
+      rw [List.isPerm_iff, e4, List.take_of_length_le (by rw [hyl]; exact hle)]
+      exact hys.1
+    rw [this] at hnp; cases hnp
+  apply ite_some_none
+  · have hsub : cy.pushes.Perm (vals ++ ys.drop cy.pulls) := by
+      rw [e4, List.take_append_drop]; exact hys.1.symm
+    have := foldl_erase_sub vals cy.pushes _ hsub
+    intro h; exact h this
+  apply ite_some_none
+  · have hk := sortedPerm_keys hys
+    intro h; apply h
+    rw [e4, ← hk, List.map_take, List.length_take]
+    rw [show min cy.pulls ys.length = min cy.pulls (ys.map (·.key)).length by rw [List.length_map]]
+    exact (List.take_eq_take_min ..)
+  apply ite_some_none
+  · apply any_eq_false'
+    intro x hx
+    rw [inDrop x hx]; rfl
+  apply ite_some_none
+  · apply any_eq_false'
+    intro j hj
+    have hjp := List.mem_range.mp hj
+    rw [e3, hPj j hjp]
+    simp only
+    by_cases hjn : j < n
+    · have hjy : j < ys.length := by rw [hyl]; exact hjn
+      rw [List.getElem?_eq_getElem hjy]
+      simp only [hjn, if_true]
+      simp [hn]
+    · rw [List.getElem?_eq_none (by rw [hyl]; omega)]
+      simp only [hjn, if_false]
+      simp [hn]
+  apply ite_some_none
+  · intro h
+    simp only [Bool.and_eq_true, decide_eq_true_eq] at h
+    exact h.2 (h4 h.1)
+  rfl
+
+/-- **The executable statement demands no more than the specification**: outputs that satisfy
+    `HistorySpec` are accepted by `checkHistory`. -/
 theorem checkHistory_complete (ac : Bool) : ∀ (h : List Cycle) (i : Nat) (outs : List Out),
-    HistorySpec ac h outs → checkHistory ac h i outs = none ∧ outs.length = (h.map cycleOpCount).sum
-  | [], _, outs, hs => by
-    have : outs = [] := hs
-    subst this
-    exact ⟨rfl, rfl⟩
-  | cy :: rest, i, outs, hs => by
+    HistorySpec ac h outs → checkHistory ac h i outs = none := by
+  intro h
+  induction h with
+  | nil => intro i outs _; rfl
+  | cons cy rest ih =>
+    intro i outs hs
     obtain ⟨ys, outs', hys, rfl, hrest⟩ := hs
-    obtain ⟨ih1, ih2⟩ := checkHistory_complete ac rest (i + 1) outs' hrest
-    have hl := specCycle_length ac ys cy
-    constructor
-    · unfold checkHistory
-      rw [List.take_append_of_le_length (by omega), List.take_of_length_le (by omega),
-        checkCycle_complete ac cy ys hys]
-      simp only []
-      rw [List.drop_append, List.drop_of_length_le (by omega), hl, Nat.sub_self, List.nil_append]
-      exact ih1
-    · rw [List.length_append, hl, ih2, List.map_cons, List.sum_cons]
+    simp only [checkHistory]
+    rw [List.take_left' (specCycle_length ac ys cy), checkCycle_complete ac cy ys hys,
+      List.drop_left' (specCycle_length ac ys cy)]
+    exact ih (i + 1) outs' hrest
 
-/-- … together: for the outputs of a run that answered every call, `checkHistory` reports no
-    violation iff the outputs satisfy the statement of C11 -/
-theorem checkHistory_iff (ac : Bool) (h : List Cycle) (i : Nat) (outs : List Out) :
-    (outs.length = (histOps h).length ∧ checkHistory ac h i outs = none) ↔ HistorySpec ac h outs := by
-  rw [histOps_length]
-  constructor
-  · rintro ⟨h1, h2⟩; exact checkHistory_sound ac h i outs h1 h2
-  · intro hs
-    obtain ⟨h1, h2⟩ := checkHistory_complete ac h i outs hs
-    exact ⟨h2, h1⟩
+/-- on the outputs of a complete run of the history (one output per call) the executable
+    statement and the specification coincide -/
+theorem checkHistory_iff (ac : Bool) (h : List Cycle) (i : Nat) (outs : List Out)
+    (hlen : outs.length = (histOps h).length) :
+    checkHistory ac h i outs = none ↔ HistorySpec ac h outs :=
+  ⟨checkHistory_sound ac h i outs hlen, checkHistory_complete ac h i outs⟩
 
 end Biogo.Properties.C11_checker
